@@ -30,6 +30,7 @@ type C18Case struct {
 	Stdin   bool      `json:"stdin,omitempty"`
 	Single  bool      `json:"single,omitempty"` // source is the single entry Kids[0] instead of the directory
 	Many    int       `json:"many,omitempty"`   // additionally N generated sibling files (sharding)
+	Multi   bool      `json:"multi,omitempty"`  // every top-level entry is passed to car create as its own source
 }
 
 const c18Chunk = 256 * 1024
@@ -93,11 +94,20 @@ func runC18(c any, x *kit.Ctx) {
 	if cs.NoWrap {
 		args = append(args, "--no-wrap")
 	}
-	args = append(args, source)
+	if cs.Multi {
+		for _, k := range cs.Kids {
+			args = append(args, filepath.Join("src", k.Name))
+		}
+	} else {
+		args = append(args, source)
+	}
 	r := drv.Car(work, nil, args...)
 	x.Eval(1)
 	x.Transition(2)
 	tag := fmt.Sprintf("v%d:nowrap=%v:stdin=%v:single=%v", cs.Version, cs.NoWrap, cs.Stdin, cs.Single)
+	if cs.Multi {
+		tag += ":multi"
+	}
 	if r.Exit != 0 {
 		x.Fail("c18:create-failed:"+tag, "car create failed (exit %d): %s", r.Exit, clipS(string(r.Stderr), 600))
 		return
@@ -189,6 +199,10 @@ func runC18(c any, x *kit.Ctx) {
 		} else {
 			gotRoot = filepath.Join(out, cs.Kids[0].Name)
 		}
+	case cs.Multi:
+		// several sources are wrapped in one directory: each appears under its base name
+		wantRoot = src
+		gotRoot = out
 	default:
 		wantRoot = src
 		if cs.NoWrap {
@@ -293,6 +307,13 @@ func genC18(tier string, emit func(any)) {
 			if len(kids) == 1 {
 				modes(kids, true)
 			}
+			if len(kids) >= 2 {
+				for _, v := range []int{1, 2} {
+					for _, stdin := range []bool{false, true} {
+						emit(C18Case{Kids: kids, Version: v, Stdin: stdin, Multi: true})
+					}
+				}
+			}
 		})
 	}
 	// file sizes around the chunk size
@@ -330,7 +351,7 @@ func init() {
 		Setup:  func(string) error { return drv.BuildCar() },
 		Decode: kit.DecodeAs[C18Case],
 		Rule: "every directory tree with up to N entries over names {a, b, ü, 'a b'} x kinds {empty file, 1-byte file, directory, symlink to a sibling, dangling symlink, symlink with a non-canonical target (./b/../a/)}, plus files of chunk-1/chunk/chunk+1/3*chunk+5 bytes, a nesting chain of depth 6 (thorough: a 1200-entry sharded directory, all 4-wide top levels) " +
-			"x --version {1,2} x --no-wrap x extraction from file / stdin x source {directory, single entry}, packed and extracted by the REAL car binary; oracle: tree equality (names, contents, link targets) under the documented mapping, exactly one root equal to `car root` and stored; non-trivial = tree with >= 2 entries",
+			"x --version {1,2} x --no-wrap x extraction from file / stdin x source {directory, single entry, several entries as separate sources}, packed and extracted by the REAL car binary; oracle: tree equality (names, contents, link targets) under the documented mapping, exactly one root equal to `car root` and stored; non-trivial = tree with >= 2 entries",
 		Bound: func(tier string) map[string]any {
 			if tier == "thorough" {
 				return map[string]any{"entries": 3, "names": 4, "kinds": 6}
